@@ -369,8 +369,8 @@ pub fn decode(code: &[u8], at: usize) -> Result<Ins, String> {
 /// What the model needs from its environment (the shadow context and the I/O seam).
 pub trait Env {
     /// Read one of the context words (byte offset 0, 8, 16, 24 from the context pointer).
-    fn ctx_read(&mut self, off: u64) -> Result<u64, String>;
-    fn ctx_write(&mut self, off: u64, v: u64) -> Result<(), String>;
+    fn ctx_read(&mut self, off: u64) -> Result<T, String>;
+    fn ctx_write(&mut self, off: u64, v: T) -> Result<(), String>;
     fn ctx_addr(&self) -> u64;
     /// Current tape allocation: (buffer address, size in cells).
     fn tape(&mut self) -> (u64, u64);
@@ -391,6 +391,8 @@ pub struct State {
     pub tape: HashMap<i64, T>,
     pub steps: u64,
     pub events_hook: Vec<Event>,
+    /// stop (without executing it) when the program counter reaches this offset
+    pub stop_at: Option<usize>,
 }
 
 pub const RAX: usize = 0;
@@ -407,6 +409,8 @@ pub enum Exit {
     Ret(T),
     Fault(String),
     StepCap,
+    /// execution reached the requested stop address
+    Stopped,
 }
 
 fn konst(w: u8, v: u64) -> T {
@@ -424,7 +428,7 @@ impl State {
             *r = with(|c| c.ar.fresh(64));
         }
         regs[RSP] = konst(64, entry_rsp);
-        State { regs, zf: None, cf: None, stack: HashMap::new(), entry_rsp, frame_lo: entry_rsp, tape: HashMap::new(), steps: 0, events_hook: vec![] }
+        State { regs, zf: None, cf: None, stack: HashMap::new(), entry_rsp, frame_lo: entry_rsp, tape: HashMap::new(), steps: 0, events_hook: vec![], stop_at: None }
     }
 
     fn reg_read(&self, r: u8, w: u8) -> T {
@@ -486,7 +490,7 @@ impl State {
             if w != 64 || (a - ca) % 8 != 0 {
                 return Err(format!("context access of {} bits at offset {}", w, a - ca));
             }
-            return Ok(konst(64, env.ctx_read(a - ca)?));
+            return env.ctx_read(a - ca);
         }
         let (buf, size) = env.tape();
         let cb = env.cell_bytes();
@@ -514,8 +518,7 @@ impl State {
             if w != 64 || (a - ca) % 8 != 0 {
                 return Err(format!("context access of {} bits at offset {}", w, a - ca));
             }
-            let c = as_const(v).ok_or("a symbolic value is stored into a context word")?;
-            return env.ctx_write(a - ca, c);
+            return env.ctx_write(a - ca, v);
         }
         let (buf, size) = env.tape();
         let cb = env.cell_bytes();
@@ -603,6 +606,9 @@ impl State {
     pub fn run(&mut self, code: &[u8], env: &mut dyn Env, max_steps: u64, check_call_alignment: bool) -> Exit {
         let mut pc = 0usize;
         loop {
+            if self.stop_at == Some(pc) {
+                return Exit::Stopped;
+            }
             self.steps += 1;
             if self.steps > max_steps {
                 return Exit::StepCap;
